@@ -148,6 +148,10 @@ type orderRow struct {
 		Enc []int `json:"enc"`
 		Key M     `json:"key"`
 	} `json:"amap"`
+	Other struct {
+		Input [][]int `json:"input"`
+		Canon [][]int `json:"canon"`
+	} `json:"other"`
 }
 
 func bs(x []int) []byte {
@@ -360,6 +364,9 @@ func runOrder(args []string) {
 						}
 					}
 				}
+				// a second composite type with the SAME qualified name at another address, declared in another order with
+				// one more field, in the same message: every type definition must be sorted on its own
+				orderSameName(r, v, fail, sameAcross, strictAccept, logKeys, counts)
 				// declared order, no sorting: the strict decoder accepts iff the declared order is sorted
 				nb := ccf.MustEncode(v)
 				strictAccept(r, "struct/unsorted-mode", nb, r.Accept)
@@ -505,7 +512,88 @@ func runOrder(args []string) {
 	}
 	out.Write(M{"summary": true, "rows": counts["rows"], "permutation_pairs_compared": counts["permutation_pairs_compared"],
 		"strict_decodes": counts["strict_decodes"], "reordered_dicts": counts["reordered_dicts"], "logged_orders": nlog,
-		"random_dicts": counts["random_dicts"], "key_encodings_predicted": counts["key_encodings_predicted"]})
+		"random_dicts": counts["random_dicts"], "key_encodings_predicted": counts["key_encodings_predicted"],
+		"same_name_messages": counts["same_name_messages"]})
+}
+
+var ordLoc2 = common.NewAddressLocation(nil, common.MustBytesToAddress([]byte{2}), "C")
+
+func orderSameName(r orderRow, v1 cadence.Struct, fail func(orderRow, string, string, bool), sameAcross func(orderRow, string, []byte),
+	strictAccept func(orderRow, string, []byte, bool), logKeys func(string, [][]byte, string), counts map[string]int) {
+	name := func(x []int) string { return string(bs(x)) }
+	var fields []cadence.Field
+	var vals []cadence.Value
+	for _, n := range r.Other.Input {
+		fields = append(fields, cadence.NewField(name(n), cadence.IntType))
+		idx := 0
+		for i, c := range r.Other.Canon {
+			if name(c) == name(n) {
+				idx = i
+			}
+		}
+		vals = append(vals, cadence.NewInt(100+idx))
+	}
+	v2 := cadence.NewStruct(vals).WithType(cadence.NewStructType(ordLoc2, "C.Sord", fields, nil))
+	anyArr := cadence.NewVariableSizedArrayType(cadence.AnyStructType)
+	for variant, vs := range map[string][]cadence.Value{"pair12": {v1, v2}, "pair21": {v2, v1}} {
+		arr := cadence.NewArray(vs).WithType(anyArr)
+		var db []byte
+		var err error
+		if p, what := guard(func() { db, err = detEnc.Encode(arr) }); p {
+			fail(r, "det-encode-panic", variant+": deterministic encoding of two same-named composite types panics: "+strings.SplitN(what, "\n", 2)[0], false)
+			continue
+		} else if err != nil {
+			fail(r, "det-encode-error", variant+": "+err.Error(), false)
+			continue
+		}
+		counts["same_name_messages"]++
+		sameAcross(r, variant, db)
+		strictAccept(r, variant+"/det", db, true)
+		td, _, _, perr := ccfParts(db)
+		if perr != nil || td == nil || len(td.kids) != 2 {
+			hfail("cannot parse the two type definitions: %v", perr)
+		}
+		for _, d := range td.kids {
+			def := d.untag()
+			tid := def.kids[1].text(db)
+			var got [][]byte
+			for _, f := range def.kids[2].kids {
+				got = append(got, []byte(f.kids[0].text(db)))
+			}
+			logKeys("lenfirst", got, "composite field names of "+tid)
+			want := r.Canon
+			if strings.HasPrefix(tid, "A.0000000000000002.") {
+				want = r.Other.Canon
+			}
+			if !sameSeqs(got, want) {
+				fail(r, "field-order", fmt.Sprintf("%s: type definition %s has fields %q, not its canonical order", variant, tid, got), false)
+			}
+		}
+		if dv, err := strictDec.Decode(nil, db); err == nil {
+			da, ok := dv.(cadence.Array)
+			if !ok || len(da.Values) != 2 {
+				fail(r, "same-name-roundtrip", variant+": decoded "+dv.String(), false)
+				continue
+			}
+			for _, e := range da.Values {
+				st := e.(cadence.Struct)
+				fm := cadence.FieldsMappedByName(st)
+				canon, base := r.Canon, 0
+				if st.StructType.Location == ordLoc2 {
+					canon, base = r.Other.Canon, 100
+				}
+				if len(fm) != len(canon) {
+					fail(r, "field-value-mismatch", fmt.Sprintf("%s: %s decodes with %d fields, expected %d", variant, st.StructType.ID(), len(fm), len(canon)), false)
+					continue
+				}
+				for i, c := range canon {
+					if fm[name(c)] == nil || fm[name(c)].String() != fmt.Sprint(base+i) {
+						fail(r, "field-value-mismatch", fmt.Sprintf("%s: %s field %q holds %v, expected %d", variant, st.StructType.ID(), name(c), fm[name(c)], base+i), false)
+					}
+				}
+			}
+		}
+	}
 }
 
 func orderDict(r orderRow, fail func(orderRow, string, string, bool), sameAcross func(orderRow, string, []byte),
